@@ -605,6 +605,30 @@ func main() {
 	cw := vh.NewCaseWriter(o, "C14", "Model.Js Model.Conc", "ccase", "check_case")
 	w := buildWorkload(sum)
 	total := o.Count(150, 6000)
+	{ // what the workload looks like: the first results of each schema run alone
+		r0 := vh.NewRng(o.Seed + 7777)
+		sample := map[string][]string{}
+		okc := 0
+		for i, ss := range w.schemas {
+			tr, _ := runJob(ss, w.gen[i](r0, 6))
+			for _, l := range tr {
+				if strings.HasPrefix(l, "OK: ") {
+					okc++
+				}
+			}
+			if len(tr) > 3 {
+				tr = tr[:3]
+			}
+			for k := range tr {
+				tr[k] = trunc(tr[k])
+			}
+			sample[ss.Name] = tr
+		}
+		sum.Extra["transcript_samples"] = sample
+		if okc < len(w.schemas) {
+			sum.Fail("workload sanity: too few successful records when the schemas run alone", map[string]int{"ok_records": okc}, sample)
+		}
+	}
 	for n := 0; n < total; n++ {
 		desc, fails, seqs, c0, c1 := runMix(r, w, o.Tier)
 		canon, _ := json.Marshal(desc)
